@@ -13,6 +13,9 @@ import (
 // judgeItems applies the per-item retry/fallback model (the C02 model on the item's own
 // script) to the events of every item. prop is the property id used in fingerprints.
 func judgeItems(prop string, sc *BatchSc, x *batchExec, br batchRun) (fp, msg string) {
+	if x.unattributed > 0 {
+		return "", "" // a fallback call could not be attributed to an item: nothing is asserted
+	}
 	n := sc.n()
 	per := itemEvents(br.Events, n)
 	totalWant, totalGot := 0, 0
@@ -25,6 +28,25 @@ func judgeItems(prop string, sc *BatchSc, x *batchExec, br batchRun) (fp, msg st
 			} else {
 				fbs = append(fbs, e)
 			}
+		}
+		if m.Unconstrained {
+			// only the slot is asserted for such items (C06/C17): see itemModel.Unconstrained
+			if x.postCalls == 1 && len(x.postRes[0]) == n && len(per[i]) > 0 {
+				if msg := slotMatches(x.postRes[0][i], per[i]); msg != "" {
+					return prop + ":item-slot", fmt.Sprintf("slot %d: %s", i, msg)
+				}
+			}
+			continue
+		}
+		if sc.stop() && stoppedBefore(br.Events, per[i]) {
+			// Stop mode: once the batch has been stopped an implementation may cut the remaining
+			// retries of in-flight items (C09 only says they "can still run"); the exact budget is
+			// asserted for items that were settled before the first final failure, the upper
+			// bound for the others.
+			if len(execs) > sc.budget() {
+				return prop + ":item-attempts", fmt.Sprintf("item %d: %d exec attempts with a budget of %d", i, len(execs), sc.budget())
+			}
+			continue
 		}
 		totalWant += m.Attempts
 		totalGot += len(execs)
@@ -54,11 +76,8 @@ func judgeItems(prop string, sc *BatchSc, x *batchExec, br batchRun) (fp, msg st
 		}
 		if wantFb == 1 {
 			fb := fbs[0]
-			if fb.InIsErr {
-				return prop + ":item-fallback-arg", fmt.Sprintf("item %d: fallback did not receive the item Result", i)
-			}
 			last := execs[len(execs)-1]
-			if !sameErr(fb.InErr, last.RetErr) {
+			if errMatches(fb.InErr, last.RetErr) != "" {
 				return prop + ":item-fallback-err", fmt.Sprintf("item %d: fallback received error %q, the item's last attempt returned %q", i, fb.InErr, last.RetErr)
 			}
 			if fb.Seq < last.Seq {
@@ -75,6 +94,21 @@ func judgeItems(prop string, sc *BatchSc, x *batchExec, br batchRun) (fp, msg st
 		return prop + ":total-attempts", fmt.Sprintf("total exec calls %d, sum of per-item model attempts %d", totalGot, totalWant)
 	}
 	return "", ""
+}
+
+// stoppedBefore: did some item's processing end in a final failure before this item's last
+// callback returned (i.e. the batch may already have been stopped while this item was in flight)?
+func stoppedBefore(all []BEv, item []BEv) bool {
+	if len(item) == 0 {
+		return true
+	}
+	lastEnd := item[len(item)-1].EndSeq
+	for _, e := range all {
+		if (e.Kind == "exec" || e.Kind == "fb") && e.Ended && e.RetErr != nil && e.Item != item[0].Item && e.EndSeq < lastEnd {
+			return true
+		}
+	}
+	return false
 }
 
 func resultOf(e BEv) flyt.Result {
@@ -118,17 +152,20 @@ func singleNodeTwin(sc *BatchSc, i int) (int, int, bool) {
 }
 
 func judgeC07(sc *BatchSc, x *batchExec, br batchRun, fail string) Verdict {
-	if fail != "" {
+	if fail != "" && !goroutinesRemain(fail) {
 		return bad("C07:bubble", "%s", fail)
 	}
 	if br.Panic != "" {
 		return bad("C07:panic", "run panicked: %s", br.Panic)
 	}
-	if sc.DeadlineMs > 0 && br.CtxErr != nil {
-		return ok(false, "deadline-expired") // the deadline did strike: C11/C20's business
+	if sc.LiveSlackMs > 0 && br.CtxErr != nil {
+		return inconclusive("a deadline placed after the natural end of the batch run expired during it")
 	}
 	if fp, msg := judgeItems("C07", sc, x, br); msg != "" {
 		return bad(fp, "%s", msg)
+	}
+	if x.unattributed > 0 {
+		return ok(false, "fallback-call-not-attributable")
 	}
 	n := sc.n()
 	per := itemEvents(br.Events, n)
@@ -177,7 +214,7 @@ func judgeC07(sc *BatchSc, x *batchExec, br batchRun, fail string) Verdict {
 	if sc.budget() > 1 {
 		cls = append(cls, "budget>1")
 	}
-	if sc.DeadlineMs > 0 {
+	if sc.LiveSlackMs > 0 {
 		cls = append(cls, "live-deadline")
 	}
 	return ok(len(distinct) >= 2 && failing >= 1 && sc.C >= 2, cls...)
@@ -268,7 +305,7 @@ func TestC07(t *testing.T) {
 		i++
 	})
 	r.exhaustive(fmt.Sprintf("every assignment of per-item scripts (exec ok/fail per attempt for budget+1 attempts, fallback ok/err) for n<=%d items, budget<=2, c in 0..3, with/without fallback, two release orders: %d cases", r.pick(2, 3), n))
-	g := batchGen{MinN: 1, MaxN: 32, MaxC: 8, Modes: []int{0, 1}, MaxBudget: 4, PFail: 450, PResErr: 40, PPreErr: 40, Fb: true, Gated: 1, MaxSched: 120, Rerun: true, Waits: true, LiveDeadline: true}
+	g := batchGen{MinN: 1, MaxN: 32, MaxC: 8, Modes: []int{0, 1}, MaxBudget: 4, PFail: 450, PResErr: 40, PPreErr: 40, Fb: true, Gated: 1, MaxSched: 120, Waits: true, LiveDeadline: true}
 	rapidPart(r, "rand-gated", r.pick(2000, 30000), g.gen, checkC07)
 	g2 := g
 	g2.Gated = 0
